@@ -1,4 +1,5 @@
 import PistacheModel.Model.Cookie
+import PistacheModel.Model.Date
 import Driver.Util
 import Driver.Mime
 open Pistache Pistache.Cookie
@@ -9,7 +10,10 @@ def optHexS : Option (List Nat) → String | some b => toHex b | none => "~"
 
 def dumpCookie (c : Cookie.Cookie) : String :=
   let ext := if c.ext.isEmpty then "-" else ",".intercalate (c.ext.map fun p => toHex p.1 ++ ":" ++ toHex p.2)
-  s!"name={toHex c.name} value={toHex c.value} path={optHexS c.path} domain={optHexS c.domain} maxage={match c.maxAge with | some n => toString n | none => "~"} expires=~ secure={if c.secure then 1 else 0} httponly={if c.httpOnly then 1 else 0} ext={ext}"
+  s!"name={toHex c.name} value={toHex c.value} path={optHexS c.path} domain={optHexS c.domain} maxage={match c.maxAge with | some n => toString n | none => "~"} expires={match c.expires with | none => "~" | some e => (match Date.parseCanon e with | some t => toString t | none => "?")} secure={if c.secure then 1 else 0} httponly={if c.httpOnly then 1 else 0} ext={ext}"
+
+/-- an Expires text outside the canonical date form is outside the model -/
+def expiresKnown (c : Cookie.Cookie) : Bool := match c.expires with | none => true | some e => (Date.parseCanon e).isSome
 
 def cerr : CErr → String
   | .runtime => "err EXC:runtime_error"
@@ -31,9 +35,10 @@ def cookieOp : List String → Option String
     let s ← fromHex h
     match fromRaw s with
     | .error e => pure (cerr e)
-    | .ok c => if c.expires.isSome then pure "unspecified" else pure ("ok " ++ dumpCookie c)
+    | .ok c => if !expiresKnown c then pure "unspecified" else pure ("ok " ++ dumpCookie c)
   | ["cookiew", n, v, p, d, ma, ex, sec, ho, ext] => do
-    if ex != "~" then pure "unspecified" else
+    let exT : Option Nat := if ex == "~" then none else ex.toNat?
+    if ex != "~" && !(match exT with | some t => decide (t < 9223372036) | none => false) then pure "unspecified" else
     let exts ← parseExtArg ext
     let nm ← fromHex n
     let vl ← fromHex v
@@ -43,13 +48,13 @@ def cookieOp : List String → Option String
     let secB : Bool := sec == "1"
     let hoB : Bool := ho == "1"
     let extM := exts.foldl (fun m kv => mapInsert m kv.1 kv.2) []
-    let c : Cookie.Cookie := { name := nm, value := vl, path := pth, domain := dom, maxAge := ma',
+    let c : Cookie.Cookie := { name := nm, value := vl, path := pth, domain := dom, maxAge := ma', expires := exT.map Date.write,
                                secure := secB, httpOnly := hoB, ext := extM }
     let w1 := write c
     match fromRaw w1 with
     | .error .unspec => pure "unspecified"
     | .error e => pure s!"w={toHex w1} orig=[{dumpCookie c}] back={cerr e}"
-    | .ok b => if b.expires.isSome then pure "unspecified" else
+    | .ok b => if !expiresKnown b then pure "unspecified" else
       pure s!"w={toHex w1} orig=[{dumpCookie c}] back=[{dumpCookie b}] w2={toHex (write b)}"
   | "jar" :: hs => do
     let vals ← hs.mapM fromHex
